@@ -213,7 +213,11 @@ def run(chk, S: Session):
             continue
         okc, det = consumer_shapes(name, hs[0], rv, subs[0])
         r1.require(okc, f"{name} consumes {handler_m}", det, det, qual)
+    # an option passed to a constructor arrives in the attribute of its own name (the rules above read options through those attributes)
+    from .ctor_wiring import ctor_wiring_rules
 
+    rcw = chk.rule("R-C17-W", "constructor wiring of the Jacobian handlers: every attribute that carries a constructor parameter's name holds that parameter, not another one", floor=5)
+    ctor_wiring_rules(chk, S, rcw, [c.qualname for c in S.p.subclasses(JAC + ".Jacobian")])
 
 def _vmap_args(it, vm_out):
     """The arguments of the vmapped call that produced a vmap_out term (recorded in the interpreter's events)."""
